@@ -7,7 +7,7 @@ import itertools
 
 import numpy as np
 
-from harness import curves, growth, monitor, numeric, par, simpl
+from harness import curves, growth, monitor, numeric, par, scale, simpl
 from harness import enums
 
 SIMPLIFIERS = ["rdp", "grdp", "rdp_fixed", "mp_grdp", "min_point_rdp"]
@@ -26,14 +26,53 @@ def _ints(a):
     return [int(v) for v in np.asarray(a).tolist()]
 
 
-def _record(item):
-    """one simplification, then the rest of the pipeline TWICE on the same (reduced, removed) objects with two filter
-    configurations - a configuration sweep that re-uses a simplification is part of the property's quantifier."""
+def _stages(P, PR, reduced, removed, cf, meta, events, B, wall):
+    """detect -> worst -> corner -> cluster -> map on the reduced curve PR; one event per public call, appended to events"""
     import importlib
     import kneeliverse.postprocessing as pp
     import kneeliverse.clustering as clustering
     import kneeliverse.knee_ranking as kr
     import kneeliverse.rdp as rdp
+    n = len(P)
+
+    def stage(name, fn, args):
+        o, val, cnt = monitor.call(fn, args, budget=B, wall=wall)
+        ev = {"stage": name, "outcome": o, "out": [], "same": []}
+        if o != "returned":
+            meta["error"] = "%s: %s" % (name, val)
+        meta["used"] = max(meta.get("used", 0), sum(cnt.values()))
+        events.append(ev)
+        return o == "returned", val, ev
+
+    det = importlib.import_module("kneeliverse." + cf["detector"])
+    ok, knees, ev = stage("detect", det.multi_knee, (PR, cf["t1"], cf["t2"]))
+    if not ok:
+        return
+    ev["out"] = _ints(knees)
+    ok, k1, ev = stage("worst", pp.filter_worst_knees, (PR, knees))
+    if not ok:
+        return
+    ev["out"] = _ints(k1)
+    ok, k2, ev = stage("corner", pp.filter_corner_knees, (PR, k1, cf["c"]))
+    if not ok:
+        return
+    ev["out"] = _ints(k2)
+    ok, k3, ev = stage("cluster", pp.filter_clusters, (PR, k2, getattr(clustering, cf["linkage"]), cf["t"], enums.pick(kr.ClusterRanking, cf["mode"])))
+    if not ok:
+        return
+    ev["out"] = _ints(k3)
+    ok, k4, ev = stage("map", rdp.mapping, (k3, reduced, removed))
+    if not ok:
+        return
+    ev["out"] = _ints(k4)
+    k3i = _ints(k3)
+    ev["same"] = [bool(0 <= orig < n and 0 <= k3i[j] < len(PR) and P[orig].tobytes() == PR[k3i[j]].tobytes())
+                  for j, orig in enumerate(ev["out"])]
+
+
+def _record(item):
+    """one simplification, then the rest of the pipeline TWICE on the same (reduced, removed) objects with two filter
+    configurations - a configuration sweep that re-uses a simplification is part of the property's quantifier."""
     cid, P, cfg = item
     P = np.asarray(P, float)
     n = len(P)
@@ -63,39 +102,7 @@ def _record(item):
         case["reduced"] = S
         case["hred"] = _exact_ranks(PR[:, 1])
         case["detmax"] = len(S) - 2
-
-        def stage(name, fn, args):
-            o, val, _ = monitor.call(fn, args, budget=B, wall=60)
-            ev = {"stage": name, "outcome": o, "out": [], "same": []}
-            if o != "returned":
-                meta["error"] = "%s: %s" % (name, val)
-            events.append(ev)
-            return o == "returned", val, ev
-
-        det = importlib.import_module("kneeliverse." + cf["detector"])
-        ok, knees, ev = stage("detect", det.multi_knee, (PR, cf["t1"], cf["t2"]))
-        if not ok:
-            continue
-        ev["out"] = _ints(knees)
-        ok, k1, ev = stage("worst", pp.filter_worst_knees, (PR, knees))
-        if not ok:
-            continue
-        ev["out"] = _ints(k1)
-        ok, k2, ev = stage("corner", pp.filter_corner_knees, (PR, k1, cf["c"]))
-        if not ok:
-            continue
-        ev["out"] = _ints(k2)
-        ok, k3, ev = stage("cluster", pp.filter_clusters, (PR, k2, getattr(clustering, cf["linkage"]), cf["t"], enums.pick(kr.ClusterRanking, cf["mode"])))
-        if not ok:
-            continue
-        ev["out"] = _ints(k3)
-        ok, k4, ev = stage("map", rdp.mapping, (k3, reduced, removed))
-        if not ok:
-            continue
-        ev["out"] = _ints(k4)
-        k3i = _ints(k3)
-        ev["same"] = [bool(0 <= orig < n and 0 <= k3i[j] < len(PR) and P[orig].tobytes() == PR[k3i[j]].tobytes())
-                      for j, orig in enumerate(ev["out"])]
+        _stages(P, PR, reduced, removed, cf, meta, events, B, 60)
     return out
 
 
@@ -202,6 +209,334 @@ def inputs(ctx):
     return items
 
 
+# ------------------------------------------------------------------------------------------------- scale family
+# Production-size curves (DESIGN 11: seed round 15).  One case = the same composition as above on a curve of 257 .. 1.4*10^5
+# points, judged by Trace_PipelineScale (same clauses; the height table of the ORIGINAL curve is sparse: only the indices the
+# mapping stage returned).  A curve travels as a DESCRIPTOR (builder name + arguments), never as a list of points: the worker
+# and the replay rebuild it, so the replay files stay small.
+# largest reduced curve handed to the super-linear detectors: lmethod.multi_knee is about cubic in the length r of the reduced
+# curve (2 s at r = 1100, 30 s at 4200), menger about quadratic (15 s at r = 17000); on RAGGED curves (a knee at every other
+# point) kneedle and menger pay one Python pass per knee (35 s / 13 s at r = 4100).  Above its cap a detector is replaced
+# (SCALE_FALLBACK, repeatedly); curvature and dfdt take every length.
+SCALE_CAPS = {"lmethod": 1200, "menger": 6000}
+SCALE_CAPS_THOROUGH = {"lmethod": 1200, "menger": 20000}
+SCALE_CAPS_RAGGED = {"lmethod": 1200, "menger": 1500, "kneedle": 1500}
+SCALE_RMAX = 40000                                   # a reduced curve beyond this is not run further (nothing returns in time)
+SCALE_FALLBACK = {"lmethod": "kneedle", "menger": "curvature", "kneedle": "dfdt"}
+
+
+def _scale_curve(d):
+    """descriptor -> (n, 2) float64 array, strictly increasing x, finite y >= 0 (deterministic)"""
+    import random
+    k, n = d["kind"], int(d.get("n", 0))
+    if k == "exp3":        # smooth miss-ratio curve with three working sets (x = 1..n), the shape the demos are run on
+        x = np.arange(1, n + 1, dtype=float)
+        a, b, c = d.get("w", [130.0, 13.0, 1.3])
+        y = 0.5 * np.exp(-x / (n / a)) + 0.3 * np.exp(-x / (n / b)) + 0.2 * np.exp(-x / (n / c))
+        return curves.mk(x, y)
+    if k == "mrc":         # convex decay pieces separated by cliffs, dyadic ordinates
+        return scale.mrc(n, random.Random(d["seed"]), knees=d.get("knees", 6))
+    if k == "stair":
+        return scale.staircase(n, d["steps"], random.Random(d["seed"]), grow=bool(d.get("grow", False)))
+    if k == "noisy":       # hyperbolic decay with a bounded relative texture: many retained points for a small threshold
+        i = np.arange(n, dtype=float)
+        u = np.random.RandomState(d["seed"]).random_sample(n)
+        y = (1.0 / (1.0 + d.get("rate", 40.0) * i / n)) * (1.0 + d.get("amp", 0.002) * u)
+        return curves.mk(i + 1.0, y)
+    if k == "convex":
+        return scale.convex_pl(n, d["corners"])
+    if k == "zigzag":
+        return scale.zigzag(n)
+    if k == "spikes":
+        return scale.spikes(n, d.get("period", 4))
+    if k == "trace":       # a window of a bundled trace (the whole trace when len is None)
+        T = curves.bundled(d["name"])
+        s = int(d.get("start", 0))
+        W = T[s:] if d.get("len") is None else T[s:s + int(d["len"])]
+        return np.ascontiguousarray(np.array(W, float))
+    raise ValueError(k)
+
+
+def _in_domain(P):
+    return bool(P.ndim == 2 and P.shape[1] == 2 and len(P) >= 3 and np.all(np.isfinite(P)) and np.all(np.diff(P[:, 0]) > 0)
+                and np.all(P[:, 1] >= 0))
+
+
+def _record_scale(item):
+    """as _record, for a curve given by its descriptor; tables: reduced / hred dense (length r), horig sparse"""
+    cid, desc, cfg = item
+    P = _scale_curve(desc)
+    n = len(P)
+    if not _in_domain(P):                                           # outside the property's quantifier: nothing is run
+        return [(None, {"scale": desc, "cfg": cfg, "outside": True})]
+    out = []
+    ev0 = simpl.call(P, dict(cfg["simplifier"]), wall=60)          # budget: monitor.quad(n, 16), per-loop 8n+64
+    cfgs = [cfg, dict(cfg, linkage=cfg["linkage2"], mode=cfg["mode2"], c=cfg["c2"])]
+    ok0 = ev0["outcome"] == "returned" and ev0.get("removed") is not None
+    S = ev0.get("reduced", []) if ok0 else []
+    good = ok0 and len(S) >= 2 and S[0] == 0 and S[-1] == n - 1 and bool(np.all(np.diff(np.asarray(S)) > 0))
+    r = len(S)
+    for ki, cf in enumerate(cfgs):
+        events = [{"stage": "simplify", "outcome": ev0["outcome"] if (ok0 or ev0["outcome"] != "returned") else "returned-malformed",
+                   "out": [], "same": []}]
+        case = {"id": "%s.%d" % (cid, ki), "n": n, "reduced": S if ok0 else [0, n - 1], "hred": [0, 0], "horig": [], "events": events,
+                "order": ["simplify", "detect", "worst", "corner", "cluster", "map"], "detmax": 0}
+        meta = {"scale": desc, "cfg": cfg, "which": ki, "n": n, "r": r, "head": P[:3].tolist(),
+                "simplify_used": sum(ev0["counts"].values()) / float(monitor.quad(n, 16))}
+        out.append((case, meta))
+        if not good:
+            if ev0["outcome"] != "returned":
+                meta["error"] = "simplify: %s" % ev0.get("error")
+            continue
+        if r > cfg.get("rmax", SCALE_RMAX):
+            meta["skipped"] = "reduced curve of %d points: not run further" % r
+            continue
+        reduced = np.array(S)
+        removed = np.array(ev0["removed"])
+        PR = P[reduced]
+        case["hred"] = _exact_ranks(PR[:, 1])
+        case["detmax"] = r - 2
+        cf = dict(cf)
+        caps = cfg.get("caps", SCALE_CAPS)
+        while caps.get(cf["detector"]) is not None and r > caps[cf["detector"]]:       # see SCALE_CAPS
+            cf["detector"] = SCALE_FALLBACK[cf["detector"]]
+        meta["detector"] = cf["detector"]
+        # hang protection: every stage is at most quadratic in r with small constants (measured: < 1e-3 of this budget)
+        B = monitor.quad(r, 64) + 4000 * n
+        _stages(P, PR, reduced, removed, cf, meta, events, B, 1800)
+        meta["stage_used"] = meta.get("used", 0) / float(B)
+        if events[-1]["stage"] == "map" and events[-1]["outcome"] == "returned":
+            idx = sorted(set(v for v in events[-1]["out"] if 0 <= v < n))
+            rk = _exact_ranks(P[idx, 1]) if idx else []
+            case["horig"] = [[int(a), int(b)] for a, b in zip(idx, rk)]
+    return out
+
+
+def _record_any(item):
+    return _record_scale(item) if isinstance(item[1], dict) else _record(item)
+
+
+def _scale_simplifier(rng, f, n, big=None):
+    """simplifier configurations for a long curve; big = a retained-point count to aim at (a LONG reduced curve)"""
+    if f == "rdp":
+        cost = rng.choice(simpl.COSTS if rng.random() < 0.4 else ["smape", "rpd", "smape"])
+        t = rng.choice([0.9, 0.99, 0.999]) if cost == "r2" else rng.choice([0.01, 0.01, 0.001, 0.005, 0.05])
+        return {"f": "rdp", "t": t, "distance": rng.choice(simpl.DISTANCES), "cost": cost}
+    # grdp / mp_grdp pay one pass over the curve per retained point: bounded costs (smape, rpd) and thresholds that stop them
+    # after at most a few thousand points on the shapes they are given (see _SLOW_SHAPES)
+    gts = [0.002, 0.01, 0.005] if n > 20000 else [0.0005, 0.002, 0.01]
+    if f == "grdp":
+        return {"f": "grdp", "t": rng.choice(gts), "distance": rng.choice(simpl.DISTANCES), "cost": rng.choice(["smape", "rpd"]), "order": rng.choice(simpl.ORDERS)}
+    if f == "rdp_fixed":
+        return {"f": "rdp_fixed", "length": big or min(n // 2, rng.choice([40, 130, 300, 1030 + rng.randint(0, 60)])), "distance": rng.choice(simpl.DISTANCES), "order": rng.choice(simpl.ORDERS)}
+    if f == "mp_grdp":
+        return {"f": "mp_grdp", "t": rng.choice(gts + [0.05]), "min_points": big or min(n // 2, rng.choice([30, 260, 1030 + rng.randint(0, 60)])), "distance": rng.choice(simpl.DISTANCES), "cost": rng.choice(["smape", "rpd"]), "order": rng.choice(simpl.ORDERS)}
+    # (min_point_rdp is grdp with each threshold in turn)
+    return {"f": "min_point_rdp", "ts": rng.choice([[0.01, 0.002], [0.05, 0.005]] if n > 20000 else [[0.01, 0.001, 0.0001], [0.05, 0.005]]),
+            "min_points": min(n // 2, rng.choice([30, 260]))}
+
+
+_SLOW_SHAPES = ("noisy", "zigzag", "spikes")     # threshold-driven global simplifiers retain nearly every point of these
+
+
+def _scale_others(d):
+    """the simplifiers other than rdp.rdp a curve is given to"""
+    if d["kind"] in _SLOW_SHAPES and d["n"] > 2000:
+        return ["rdp_fixed"]
+    return SIMPLIFIERS[1:]
+
+
+def _scale_cfg(rng, sc, d, pairs2, k):
+    l, m = pairs2[k % len(pairs2)]
+    return {"simplifier": sc, "detector": d, "t1": rng.choice([0.001, 0.01, 0.0]),
+            "t2": rng.choice([4, 5]) if d in ("menger", "lmethod") else rng.choice([3, 4]),
+            "c": rng.choice([0.33, 0.1, 0.5]), "linkage": l, "t": rng.choice([0.01, 0.02, 0.05, 0.1]), "mode": m,
+            "linkage2": rng.choice(LINKAGES), "mode2": rng.choice(MODES), "c2": rng.choice([0.33, 0.2])}
+
+
+def scale_inputs(ctx):
+    """sizes straddling 256 / 1024 / 4096 / 10^4 / 16384 / 32768 / 65536 / 10^5 x shapes x simplifiers (rdp.rdp, the one every
+    demo uses, in at least half of the cases) x detectors x linkage x ranking mode; plus the whole bundled traces and a few
+    LONG reduced curves (more than 1024 / 4096 / 16384 retained points, hundreds of knees)."""
+    rng = ctx.rng
+    quick = ctx.quick
+    caps = SCALE_CAPS if quick else SCALE_CAPS_THOROUGH
+    sizes = set(scale.sizes(ctx, lo=257, hi=140000, k_quick=5, k_thorough=9))
+    sizes |= {16385 + rng.randrange(1, 4000), 65537 + rng.randrange(1, 9000)}          # always: both sides of a 2^14 / 2^16 seam
+    if not quick:
+        sizes |= {4097 + rng.randrange(1, 900), 32769 + rng.randrange(1, 9000)}
+    sizes = sorted(sizes)
+    pairs2 = list(itertools.product(LINKAGES, MODES))
+    rng.shuffle(pairs2)
+    curves_ = []                                   # descriptors
+    shapes = ["exp3", "mrc", "stair", "noisy", "trace", "convex", "ragged"]
+    for si, n in enumerate(sizes):
+        pick = shapes if not quick else [shapes[(si + j) % len(shapes)] for j in (0, 3)] + (["exp3"] if n > 16384 and si % 2 else [])
+        for sh in dict.fromkeys(pick):
+            if sh == "exp3":
+                curves_.append({"kind": "exp3", "n": n, "w": [rng.choice([130.0, 60.0, 300.0]), rng.choice([13.0, 9.0, 25.0]), rng.choice([1.3, 2.0, 0.9])]})
+            elif sh == "mrc":
+                curves_.append({"kind": "mrc", "n": n, "seed": rng.randrange(10 ** 6), "knees": rng.choice([4, 6, 12, 40])})
+            elif sh == "stair":
+                curves_.append({"kind": "stair", "n": n, "steps": rng.choice([8, 40, 200]), "seed": rng.randrange(10 ** 6), "grow": rng.random() < 0.3})
+            elif sh == "noisy":
+                curves_.append({"kind": "noisy", "n": n, "seed": rng.randrange(10 ** 6), "rate": rng.choice([10.0, 40.0, 200.0]), "amp": rng.choice([0.0005, 0.002, 0.005])})
+            elif sh == "convex":
+                curves_.append({"kind": "convex", "n": n, "corners": rng.choice([5, 30, 120])})
+            elif sh == "trace":
+                nm = "web2.csv" if n > 8000 or rng.random() < 0.5 else "usr0.csv"
+                try:
+                    L = len(curves.bundled(nm))
+                except Exception:
+                    continue
+                if L < n:
+                    continue
+                curves_.append({"kind": "trace", "name": nm, "start": rng.randint(0, L - n), "len": n, "n": n})
+            elif sh == "ragged" and n <= 5000:     # every point is retained: work stacks as deep as the curve is long
+                curves_.append({"kind": rng.choice(["zigzag", "spikes"]), "n": n, "period": rng.choice([3, 4, 7])})
+    for n in ([rng.choice([1025, 4097]) + rng.randrange(1, 400)] if quick else [1025 + rng.randrange(1, 400), 4097 + rng.randrange(1, 400)]):
+        curves_.append({"kind": rng.choice(["zigzag", "spikes"]), "n": n, "period": rng.choice([3, 4, 7])})      # always: a ragged one
+    for nm in ("web2.csv", "usr0.csv"):            # the bundled traces as a whole, always
+        try:
+            curves_.append({"kind": "trace", "name": nm, "start": 0, "len": None, "n": len(curves.bundled(nm))})
+        except Exception:
+            pass
+    items = []
+    k = 0
+    dets = list(DETECTORS)
+    for ci, d in enumerate(curves_):
+        n = d["n"]
+        whole = d["kind"] == "trace" and d["len"] is None
+        others = _scale_others(d)
+        fs = ["rdp", "rdp"] + [rng.choice(others)] if quick else ["rdp", "rdp", "rdp"] + rng.sample(others, min(3, len(others)))
+        if whole:
+            fs = ["rdp", "rdp", "rdp"] + (others if not quick else rng.sample(others, 2))
+        for j, f in enumerate(fs):
+            sc = _scale_simplifier(rng, f, n)
+            if whole and j == 0:                   # the demos' defaults (-r 0.01 -c 0.33 -t 0.05 -k hull, average linkage)
+                sc = {"f": "rdp", "t": 0.01, "distance": "shortest", "cost": "smape"}
+            cfg = _scale_cfg(rng, sc, dets[k % len(dets)], pairs2, k)
+            if whole and j == 0:
+                cfg.update(t1=0.001, t2=4 if cfg["detector"] in ("menger", "lmethod") else 3, c=0.33, linkage="average_linkage", t=0.05, mode="hull")
+            cfg["caps"] = SCALE_CAPS_RAGGED if d["kind"] in ("zigzag", "spikes") else caps
+            items.append(("s%d" % k, d, cfg))
+            k += 1
+    # LONG reduced curves: a fixed number of retained points just above 1024 / 4096 (thorough: 16384) on curves at least four
+    # times longer - hundreds to thousands of knees enter the filters, the mapping walks a long removed table
+    targets = [1025 + rng.randrange(1, 200), 4097 + rng.randrange(1, 300)] + ([] if quick else [2049 + rng.randrange(1, 300), 8193 + rng.randrange(1, 300), 16385 + rng.randrange(1, 600)])
+    for big in targets:
+        n = max(4 * big + rng.randrange(1, 999), rng.choice(sizes[-3:]))
+        d = rng.choice([{"kind": "mrc", "n": n, "seed": rng.randrange(10 ** 6), "knees": 40},
+                        {"kind": "noisy", "n": n, "seed": rng.randrange(10 ** 6), "rate": 40.0, "amp": 0.002}])
+        for f in (["rdp_fixed"] if quick else ["rdp_fixed", "mp_grdp"]):
+            sc = _scale_simplifier(rng, f, n, big=big)
+            if f == "mp_grdp":
+                sc["t"] = 0.05                      # the threshold stops the first phase early: min_points decides
+            cfg = _scale_cfg(rng, sc, dets[k % len(dets)], pairs2, k)
+            cfg["caps"] = caps
+            items.append(("s%d" % k, d, cfg))
+            k += 1
+    return items
+
+
+def _scale_static():
+    return {"id": "static", "order": ["simplify", "detect", "worst", "corner", "cluster", "map"], "detmax": 4, "n": 100000,
+            "reduced": [0, 20000, 30000, 50000, 80000, 99999], "hred": [5, 4, 3, 2, 1, 0], "horig": [[20000, 1], [80000, 0]],
+            "events": [{"stage": "simplify", "outcome": "returned", "out": [], "same": []},
+                       {"stage": "detect", "outcome": "returned", "out": [1, 2, 3, 4], "same": []},
+                       {"stage": "worst", "outcome": "returned", "out": [1, 2, 3, 4], "same": []},
+                       {"stage": "corner", "outcome": "returned", "out": [1, 3, 4], "same": []},
+                       {"stage": "cluster", "outcome": "returned", "out": [1, 4], "same": []},
+                       {"stage": "map", "outcome": "returned", "out": [20000, 80000], "same": [True, True]}]}
+
+
+def _scale_selftests():
+    import copy
+    S = _scale_static()
+    out = [(S, "ok")]
+    c = copy.deepcopy(S); c["events"][3]["out"] = [1, 5]; out.append((c, "filter-subsequence"))
+    c = copy.deepcopy(S); c["events"][4]["out"] = [4, 1]; out.append((c, "filter-subsequence"))
+    c = copy.deepcopy(S); c["events"][4]["out"] = [1, 1, 4]; out.append((c, "filter-subsequence"))
+    c = copy.deepcopy(S); c["hred"] = [5, 1, 3, 2, 4, 0]; out.append((c, "heights-monotone"))
+    c = copy.deepcopy(S); c["horig"] = [[20000, 0], [80000, 1]]; out.append((c, "heights-monotone"))
+    c = copy.deepcopy(S); c["events"][5]["out"] = [19999, 80000]; c["horig"] = [[19999, 1], [80000, 0]]; out.append((c, "mapped-is-retained-point"))   # off by one seam
+    c = copy.deepcopy(S); c["events"][5]["out"] = [20000, 14464]; c["horig"] = [[14464, 1], [20000, 0]]; out.append((c, "mapped-increasing"))          # 80000 wrapped at 2^16
+    c = copy.deepcopy(S); c["events"][5]["out"] = [20000]; out.append((c, "mapped-is-retained-point"))
+    c = copy.deepcopy(S); c["events"][5]["same"] = [True, False]; out.append((c, "mapped-same-coordinates"))
+    c = copy.deepcopy(S); c["reduced"] = [0, 20000, 30000, 30000, 80000, 99999]; out.append((c, "stage-completes"))
+    c = copy.deepcopy(S); c["reduced"] = [0, 20000, 30000, 50000, 80000, 99998]; out.append((c, "stage-completes"))
+    c = copy.deepcopy(S); c["events"][4]["outcome"] = "budget"; c["events"] = c["events"][:5]; out.append((c, "stage-completes"))
+    c = copy.deepcopy(S); c["events"][1]["out"] = [1, 2, 5]; out.append((c, "stage-completes"))
+    return out
+
+
+def _scale_nontrivial(c):
+    evs = {e["stage"]: e for e in c["events"]}
+    return "map" in evs and (len(evs["map"]["out"]) >= 2 or len(evs["detect"]["out"]) > len(evs["map"]["out"]))
+
+
+def run_scale(ctx, rec):
+    """judge the recorded scale cases (Trace_PipelineScale) and account for them"""
+    outside = [m for c, m in rec if c is None]
+    rec = [cm for cm in rec if cm[0] is not None]
+    if outside:
+        ctx.note("scale: %d curves fell outside the domain (strictly increasing x, finite y >= 0) and were not run: %s" % (len(outside), outside[0]["scale"]))
+    cases = [c for c, _ in rec]
+    meta = {c["id"]: m for c, m in rec}
+    rej = ctx.trace("Trace_PipelineScale", cases, selftest=_scale_selftests(), chunk=60 if ctx.quick else 100)
+    cov = {"pipelines": len(cases), "reaching_map": 0, "sizes": sorted(set(c["n"] for c in cases)), "shapes": {}, "simplifiers": {}, "detectors": {},
+           "longest_reduced_curve": 0, "most_knees_detected": 0, "most_knees_mapped": 0, "mapped_knees_beyond": {}, "detector_replaced": 0,
+           "not_run_further": 0, "largest_budget_fraction": 0.0}
+    for c in cases:
+        m = meta[c["id"]]
+        evs = {e["stage"]: e for e in c["events"]}
+        ctx.count((m["scale"], m["cfg"], m["which"]), _scale_nontrivial(c))
+        d = m["scale"]
+        sh = d["kind"] + (":" + d["name"] if d["kind"] == "trace" else "")
+        cov["shapes"][sh] = cov["shapes"].get(sh, 0) + 1
+        f = m["cfg"]["simplifier"]["f"]
+        cov["simplifiers"][f] = cov["simplifiers"].get(f, 0) + 1
+        cov["largest_budget_fraction"] = max(cov["largest_budget_fraction"], m.get("simplify_used", 0.0), m.get("stage_used", 0.0))
+        if "skipped" in m:
+            cov["not_run_further"] += 1
+        if "detector" in m:
+            cov["detectors"][m["detector"]] = cov["detectors"].get(m["detector"], 0) + 1
+            cov["detector_replaced"] += m["detector"] != m["cfg"]["detector"]
+        if "detect" in evs:
+            cov["longest_reduced_curve"] = max(cov["longest_reduced_curve"], m["r"])
+            cov["most_knees_detected"] = max(cov["most_knees_detected"], len(evs["detect"]["out"]))
+        if "map" in evs and evs["map"]["outcome"] == "returned":
+            cov["reaching_map"] += 1
+            cov["most_knees_mapped"] = max(cov["most_knees_mapped"], len(evs["map"]["out"]))
+            for th in (4096, 16384, 32768, 65536, 100000):
+                if any(v > th for v in evs["map"]["out"]):
+                    cov["mapped_knees_beyond"][str(th)] = cov["mapped_knees_beyond"].get(str(th), 0) + 1
+    cov["largest_budget_fraction"] = round(cov["largest_budget_fraction"], 6)
+    ctx.extra["scale"] = cov
+    if cov["not_run_further"]:
+        ctx.note("scale: %d pipelines stopped after the simplification (reduced curve longer than %d points)" % (cov["not_run_further"], SCALE_RMAX))
+    if cov["detector_replaced"]:
+        ctx.note("scale: lmethod / menger (on ragged curves also kneedle) multi_knee are super-linear in the length of the reduced curve; on "
+                 "reduced curves longer than their caps %d pipelines ran kneedle / curvature / dfdt instead" % cov["detector_replaced"])
+    for cid, vs in rej.items():
+        m = meta[cid]
+        if vs[0][0] == "sparse-table-incomplete":
+            from harness.main import Machinery
+            raise Machinery("Trace_PipelineScale: the recorder produced an incomplete sparse height table for %s" % (m["scale"],))
+        ctx.violation(vs[0][0], {"scale": m["scale"], "cfg": m["cfg"]},
+                      {"verdict": vs[0], "error": m.get("error"), "pass": m["which"], "n": m["n"], "retained": m["r"], "family": "scale"},
+                      match="%s:%s:%s" % (vs[0][0], m["cfg"]["detector"], m["cfg"]["mode"]))
+    good = [c for c in cases if c["events"][-1]["stage"] == "map" and any(v > 16384 for v in c["events"][-1]["out"])]
+    if not rej and not good:
+        from harness.main import Machinery
+        raise Machinery("scale family is vacuous: no pipeline mapped a knee beyond index 16384 (%s)" % cov)
+    if good:
+        sm = min(good, key=lambda c: len(c["reduced"]))
+        m = meta[sm["id"]]
+        ctx.sample({"binding": "T", "family": "scale", "curve": m["scale"], "cfg": m["cfg"], "n": sm["n"], "retained": len(sm["reduced"]),
+                    "events": sm["events"], "horig_sparse": sm["horig"]})
+
+
 STATIC = {"id": "static", "order": ["simplify", "detect", "worst", "corner", "cluster", "map"], "detmax": 4, "n": 10, "reduced": [0, 2, 3, 5, 8, 9], "hred": [5, 4, 3, 2, 1, 0], "horig": [9, 8, 7, 6, 5, 4, 3, 2, 1, 0],
           "events": [{"stage": "simplify", "outcome": "returned", "out": [0, 2, 3, 5, 8, 9], "same": []},
                      {"stage": "detect", "outcome": "returned", "out": [1, 2, 3, 4], "same": []},
@@ -228,15 +563,27 @@ def run(ctx):
     ctx.rule = ("one case = one run of simplify -> multi_knee(reduced curve) -> filter_worst_knees -> filter_corner_knees -> "
                 "filter_clusters -> mapping; quick: every simplifier x detector pair and every linkage x mode pair appear "
                 "(covering sample); thorough: all 25 simplifier x detector pairs per curve plus all 16 linkage x mode pairs.  "
-                "non-trivial: at least two knees reach the mapping stage or a filter removes a knee")
+                "non-trivial: at least two knees reach the mapping stage or a filter removes a knee.  "
+                "scale family: the same composition on production-size curves (257 .. 1.4*10^5 points straddling 2^8 .. 2^16, 10^4, 10^5: "
+                "smooth and cliffed miss-ratio shapes, staircases, textured decays, convex piecewise-linear, zigzag / spikes, windows of "
+                "and the whole bundled web2.csv / usr0.csv; rdp.rdp in at least half of the cases, every other simplifier, every detector, "
+                "linkage and ranking mode; reduced curves of more than 1024 / 4096 (thorough: 16384) retained points), validated by "
+                "Trace_PipelineScale with a sparse height table of the original curve")
     ctx.assumptions += ["heights are compared exactly (ranks of the binary64 values), as filter_worst_knees compares them",
                         "coordinate identity is bit-equality of points[mapped index] and points_reduced[knee position]",
                         "the demo scripts themselves are not executed (argparse, matplotlib, evaluation tail); the harness composes "
-                        "the same public calls"]
+                        "the same public calls",
+                        "scale family: height ranks of the original curve are taken among the indices the mapping stage returned (the "
+                        "clause only compares heights); lmethod / menger multi_knee run on reduced curves up to a cap only"]
     ctx.mc("Pipeline", "MC_Pipeline", need_actions=("Detect", "FilterWorst", "FilterCorner", "FilterCluster", "Map"))
     ctx.mc("Pipeline", "MC_Pipeline_dup", expect="MappedOk")
     items = inputs(ctx)
-    rec = [cm for lst in par.pmap(_record, items, chunksize=2) for cm in lst]
+    st = ctx.rng.getstate()             # the small families and the growth modules see the same random stream as before
+    sitems = scale_inputs(ctx)
+    ctx.rng.setstate(st)
+    rec = [cm for lst in par.pmap(_record_any, sitems + items, chunksize=2) for cm in lst]
+    srec = [cm for cm in rec if "scale" in cm[1]]
+    rec = [cm for cm in rec if "scale" not in cm[1]]
     cases = [c for c, _ in rec]
     meta = {c["id"]: m for c, m in rec}
     rej = ctx.trace("Trace_Pipeline", cases, selftest=_selftests(), chunk=200)
@@ -250,6 +597,7 @@ def run(ctx):
         m = meta[cid]
         ctx.violation(vs[0][0], {"points": m["points"], "cfg": m["cfg"]}, {"verdict": vs[0], "error": m.get("error"), "pass": m["which"]},
                       match="%s:%s:%s" % (vs[0][0], m["cfg"]["detector"], m["cfg"]["mode"]))
+    run_scale(ctx, srec)
     growth.safe(ctx, growth.pipeline_variants)
     sm = max(cases, key=lambda c: len(c["events"][-1]["out"]) if c["events"][-1]["stage"] == "map" and c["n"] < 80 else -1)
     ctx.sample({"binding": "T", "cfg": meta[sm["id"]]["cfg"], "n": sm["n"], "events": sm["events"]})
@@ -257,6 +605,12 @@ def run(ctx):
 
 def replay(ctx, obj):
     c = obj["case"]
+    if "scale" in c:                    # scale family: the curve is rebuilt from its descriptor
+        lst = [cm for cm in _record_scale(("replay", c["scale"], c["cfg"])) if cm[0] is not None]
+        rej = ctx.trace("Trace_PipelineScale", [case for case, _ in lst])
+        for cid, vs in rej.items():
+            ctx.violation(vs[0][0], c, {"verdict": vs[0], "family": "scale"})
+        return
     lst = _record(("replay", c["points"], c["cfg"]))
     rej = ctx.trace("Trace_Pipeline", [case for case, _ in lst])
     for cid, vs in rej.items():
